@@ -1,8 +1,10 @@
 (** Property C05: everything after [--] is delivered verbatim as positional values.
-    Only pinned statements; proofs live in ParseProofs/Escape.v. *)
+    Only pinned statements; proofs live in ParseProofs/Escape.v (the loop after the escape) and, round 2,
+    ParseProofs/EscapeWalk.v (the loop before the escape), EscapeStore.v (pending values -> entry),
+    EscapeTop.v (get_matches_with / do_parse / parse_top). *)
 From ClapModel Require Import Base.Bytes Base.Machine Base.Utf8 Lex.OsStrExtModel.
 From ClapModel Require Import Parse.Cmd Parse.Build Parse.Valid Parse.Matcher Parse.Errors Parse.Validator Parse.Parser.
-From ClapModel Require Import ParseProofs.Escape.
+From ClapModel Require Import ParseProofs.Totality ParseProofs.Escape ParseProofs.EscapeWalk ParseProofs.EscapeStore ParseProofs.EscapeTop.
 From Coq Require Import ZArith.
 From RecordUpdate Require Import RecordSet.
 Import RecordSetNotations.
@@ -128,3 +130,185 @@ Theorem C05_values_appended : forall c a raw st st' m gs g,
   exists m', get_entry (a_id a) st' = Some m' /\ m_raw m' = gs ++ [g ++ raw].
 Proof. exact push_arg_values_entry. Qed.
 Print Assumptions C05_values_appended.
+
+(** * Round 2: from the loop to the whole parse *)
+
+(** What the proofs need of one (built) command level; both follow from the build step and the
+    validity gate, for every level of a [plain], [valid] definition. *)
+Theorem C05_level_facts : forall c, wfc c -> assert_app c = true -> lvl c /\ lvl_store c.
+Proof. exact (fun c Hw Ha => conj (lvl_of_wfc c Hw Ha) (lvl_store_of_wfc c Hw Ha)). Qed.
+Print Assumptions C05_level_facts.
+
+(** The loop BEFORE the escape.  For every level without hyphen-accepting arguments in which [--]
+    is no subcommand name, every prefix, every two tails and every state satisfying the invariant
+    [TV] (the pending occurrence belongs to an argument that takes values, its trailing index is
+    in range -- trivially true of the states the loop is entered with): the two lines
+    [pre ++ -- :: t1] and [pre ++ -- :: t2] either both continue in trailing mode from ONE state
+    [(ls', st')] reached independently of the tails (again satisfying [TV], with the recorded
+    subcommand unchanged), or both end inside [pre] with the same error/panic, or both hand
+    [-- :: t1] / [-- :: t2] unread to the same subcommand, help subcommand or external subcommand
+    selected by [pre]. *)
+Theorem C05_escape_line_sim : forall c,
+  (forall a, In a (c_args c) -> find_arg c (a_id a) = Some a) ->
+  (forall a, In a (c_args c) -> a_index a <> None -> a_takes_value a = true) ->
+  (forall a, In a (c_args c) -> a_hyphen a = false) ->
+  (forall vaf, possible_subcommand c dashdash vaf = None) ->
+  forall pre t1 t2 ls st, TV c st -> LTV c ls ->
+  esim c t1 t2 ls st (parse_loop c (pre ++ dashdash :: t1) ls st) (parse_loop c (pre ++ dashdash :: t2) ls st).
+Proof. exact escape_line_sim. Qed.
+Print Assumptions C05_escape_line_sim.
+
+(** (1a) [C05_trailing_no_display] closed: in trailing mode, from a state satisfying [TV], no
+    DisplayHelp/DisplayVersion outcome exists at all. *)
+Theorem C05_trailing_never_displays : forall c,
+  (forall a, In a (c_args c) -> find_arg c (a_id a) = Some a) ->
+  (forall a, In a (c_args c) -> a_index a <> None -> a_takes_value a = true) ->
+  (forall a, In a (c_args c) -> display_action a = true -> a_takes_value a = false) ->
+  forall toks ls st e st',
+  l_trailing ls = true -> TV c st -> parse_loop c toks ls st = RErr e st' -> is_display (e_kind e) = false.
+Proof. exact trailing_no_display_TV. Qed.
+Print Assumptions C05_trailing_never_displays.
+
+(** (1b) ... and for the whole line, from the states the loop is entered with: a help/version
+    outcome of [pre ++ -- :: t] is the outcome of [pre ++ -- :: t2] for EVERY tail [t2] (the empty
+    one included) -- no token of the tail caused it. *)
+Theorem C05_display_not_from_tail : forall c,
+  lvl c -> (forall a, In a (c_args c) -> a_hyphen a = false) ->
+  (forall vaf, possible_subcommand c dashdash vaf = None) ->
+  forall pre t t2 st0 e st',
+  mt_pending (mt st0) = None ->
+  parse_loop c (pre ++ dashdash :: t) ls0 st0 = RErr e st' -> is_display (e_kind e) = true ->
+  parse_loop c (pre ++ dashdash :: t2) ls0 st0 = RErr e st'.
+Proof. exact (fun c Hl Hnh Hdd => display_not_from_tail_initial c Hl Hnh Hdd). Qed.
+Print Assumptions C05_display_not_from_tail.
+
+(** (2) pending values -> raw occurrence, ONE theorem through [resolve_pending]/[react_core]
+    ([verify_num_args], delimiter block, [mt_remove]/[start_custom_arg], [push_arg_values]): closing
+    the occurrence [earlier ++ t] of a Set/Append argument whose trailing index lies at or before
+    the first value of [t] leaves an entry whose LAST value group is [earlier] (delimited as usual)
+    followed by [t] in its stored form [tail_form] (= [t] itself with
+    [dont_delimit_trailing_values] or without a declared delimiter). *)
+Theorem C05_sink_resolve : forall c st p a earlier t k st',
+  find_group c (a_id a) = None ->
+  a_get_action a = ASet \/ a_get_action a = AAppend ->
+  mt_pending (mt st) = Some p -> find_arg c (p_id p) = Some a ->
+  p_raw p = earlier ++ t -> t <> [] -> p_trailing_idx p = Some k -> k <= N.of_nat (length earlier) ->
+  resolve_pending c st = ROk st' ->
+  exists e gs early' t',
+    get_entry (a_id a) st' = Some e /\ m_raw e = gs ++ [early' ++ t'] /\ m_source e = Some SCmdLine /\
+    delimit c a earlier (Some k) = Some early' /\ tail_form c a t = Some t' /\
+    mt_pending (mt st') = None.
+Proof. exact sink_resolve. Qed.
+Print Assumptions C05_sink_resolve.
+
+Theorem C05_tail_form_verbatim : forall c a t,
+  (is_set s_dont_delimit_trailing c = true \/ a_delim a = None) -> tail_form c a t = Some t.
+Proof. exact (fun c a t H => match H with or_introl H1 => tail_form_ddt c a t H1 | or_intror H2 => tail_form_no_delim c a t H2 end). Qed.
+Print Assumptions C05_tail_form_verbatim.
+
+(** (3), one level ([get_matches_with] = loop + [resolve_pending] + [add_env] + [add_defaults] +
+    [validate]).  Class [sink_from c 1 a]: after the escape every token goes to the multi-valued,
+    unterminated positional [a] -- for every value of the positional counter ([last] positional /
+    [allow_missing_positional]) or because the counter cannot move ([sticky]).  A successful parse
+    of [pre ++ -- :: t], [t] non-empty, ended its loop with [LDone] (no token of [t] dispatched
+    anything), kept the recorded subcommand of the initial state, and the final entry of [a] has
+    [t] (stored form) as the suffix of its last value group -- unless [pre] itself selected a
+    subcommand / external subcommand, which then receives [-- :: t] unread. *)
+Theorem C05_level_tail_verbatim : forall c,
+  lvl c -> lvl_store c -> (forall a, In a (c_args c) -> a_hyphen a = false) ->
+  (forall vaf, possible_subcommand c dashdash vaf = None) ->
+  forall f pre t st0 st',
+  t <> [] -> mt_pending (mt st0) = None ->
+  get_matches_with (S f) c (pre ++ dashdash :: t) st0 = ROk st' ->
+  (forall a, sink_from c 1 a ->
+    exists st1 e gs early' t',
+      parse_loop c (pre ++ dashdash :: t) ls0 st0 = ROk (LDone st1) /\
+      mt_sub (mt st') = mt_sub (mt st0) /\
+      get_entry (a_id a) st' = Some e /\ m_raw e = gs ++ [early' ++ t'] /\ m_source e = Some SCmdLine /\
+      tail_form c a t = Some t')
+  \/ (exists n k v st1 r, parse_loop c (pre ++ dashdash :: t) ls0 st0 = ROk (LSub n k v st1 (r ++ dashdash :: t)))
+  \/ (exists tk r st1, parse_loop c (pre ++ dashdash :: t) ls0 st0 = ROk (LExternal tk (r ++ dashdash :: t) st1)).
+Proof. exact level_tail_verbatim. Qed.
+Print Assumptions C05_level_tail_verbatim.
+
+(** (4), one level: two successful parses of the same prefix with tails [t1], [t2] (either may be
+    empty: "without the tail") agree on every command-line entry outside [touched c a]. *)
+Theorem C05_level_prefix_entries : forall c,
+  lvl c -> lvl_store c -> (forall a, In a (c_args c) -> a_hyphen a = false) ->
+  (forall vaf, possible_subcommand c dashdash vaf = None) ->
+  forall f pre t1 t2 st0 s1 s2,
+  mt_pending (mt st0) = None ->
+  get_matches_with (S f) c (pre ++ dashdash :: t1) st0 = ROk s1 ->
+  get_matches_with (S f) c (pre ++ dashdash :: t2) st0 = ROk s2 ->
+  (forall a, sink_from c 1 a ->
+    exists l1 l2,
+      parse_loop c (pre ++ dashdash :: t1) ls0 st0 = ROk (LDone l1) /\
+      parse_loop c (pre ++ dashdash :: t2) ls0 st0 = ROk (LDone l2) /\
+      mt_sub (mt s1) = mt_sub (mt st0) /\ mt_sub (mt s2) = mt_sub (mt st0) /\
+      forall y e, touched c a y = false -> find_group c y = None ->
+                  get_entry y s1 = Some e -> m_source e = Some SCmdLine -> get_entry y s2 = Some e)
+  \/ (exists n k v st1 r,
+        parse_loop c (pre ++ dashdash :: t1) ls0 st0 = ROk (LSub n k v st1 (r ++ dashdash :: t1)) /\
+        parse_loop c (pre ++ dashdash :: t2) ls0 st0 = ROk (LSub n k v st1 (r ++ dashdash :: t2)))
+  \/ (exists tk r st1,
+        parse_loop c (pre ++ dashdash :: t1) ls0 st0 = ROk (LExternal tk (r ++ dashdash :: t1) st1) /\
+        parse_loop c (pre ++ dashdash :: t2) ls0 st0 = ROk (LExternal tk (r ++ dashdash :: t2) st1)).
+Proof. exact level_prefix_entries. Qed.
+Print Assumptions C05_level_prefix_entries.
+
+(** (3)/(4) over the recursion into subcommands, for trees all of whose levels are built, pass the
+    validity gate, have no [ignore_errors], no hyphen-accepting argument and no subcommand named
+    [--] ([esc_ok]); [delivered] / [prefix_same] say at which level the [--] was consumed. *)
+Theorem C05_gmw_delivered : forall fuel c pre t st0 st',
+  esc_ok fuel c -> t <> [] -> mt_pending (mt st0) = None -> mt_sub (mt st0) = None ->
+  get_matches_with fuel c (pre ++ dashdash :: t) st0 = ROk st' ->
+  delivered fuel c t (into_inner (mt st')).
+Proof. exact gmw_delivered. Qed.
+Print Assumptions C05_gmw_delivered.
+
+Theorem C05_gmw_prefix_same : forall fuel c pre t1 t2 st0 s1 s2,
+  esc_ok fuel c -> mt_pending (mt st0) = None -> mt_sub (mt st0) = None ->
+  get_matches_with fuel c (pre ++ dashdash :: t1) st0 = ROk s1 ->
+  get_matches_with fuel c (pre ++ dashdash :: t2) st0 = ROk s2 ->
+  prefix_same fuel c (into_inner (mt s1)) (into_inner (mt s2)).
+Proof. exact gmw_prefix_same. Qed.
+Print Assumptions C05_gmw_prefix_same.
+
+(** The boolean class implies [esc_ok] of the built root (with [valid], absence of [ignore_errors]
+    at the root, and absence of global arguments). *)
+Theorem C05_class_ok : forall c0, esc_class c0 = true ->
+  valid c0 = true /\ esc_ok (top_fuel c0) (build_self c0) /\ is_set s_ignore_errors (build_self c0) = false
+  /\ globals_free (build_recursive (top_fuel c0) c0) = true.
+Proof. exact esc_class_ok. Qed.
+Print Assumptions C05_class_ok.
+
+(** (3) for [parse_top]: for every definition of the boolean class [esc_class], every binary name,
+    prefix and non-empty tail: if the parse succeeds, the tail has been [delivered]. *)
+Theorem C05_parse_top_delivered : forall c0 bin pre t m,
+  esc_class c0 = true -> is_set s_no_binary_name c0 = false -> c_bin_name c0 <> None -> t <> [] ->
+  parse_top c0 (bin :: pre ++ dashdash :: t) = OOk m ->
+  delivered (top_fuel c0) (build_self c0) t m.
+Proof. exact parse_top_delivered. Qed.
+Print Assumptions C05_parse_top_delivered.
+
+Theorem C05_do_parse_delivered : forall c0 pre t m,
+  esc_class c0 = true -> t <> [] ->
+  do_parse c0 (pre ++ dashdash :: t) = OOk m ->
+  delivered (top_fuel c0) (build_self c0) t m.
+Proof. exact do_parse_delivered. Qed.
+Print Assumptions C05_do_parse_delivered.
+
+(** (4) for [parse_top]: the same prefix parsed with two tails (one may be empty). *)
+Theorem C05_parse_top_prefix_same : forall c0 bin pre t1 t2 m1 m2,
+  esc_class c0 = true -> is_set s_no_binary_name c0 = false -> c_bin_name c0 <> None ->
+  parse_top c0 (bin :: pre ++ dashdash :: t1) = OOk m1 -> parse_top c0 (bin :: pre ++ dashdash :: t2) = OOk m2 ->
+  prefix_same (top_fuel c0) (build_self c0) m1 m2.
+Proof. exact parse_top_prefix_same. Qed.
+Print Assumptions C05_parse_top_prefix_same.
+
+Theorem C05_do_parse_prefix_same : forall c0 pre t1 t2 m1 m2,
+  esc_class c0 = true ->
+  do_parse c0 (pre ++ dashdash :: t1) = OOk m1 -> do_parse c0 (pre ++ dashdash :: t2) = OOk m2 ->
+  prefix_same (top_fuel c0) (build_self c0) m1 m2.
+Proof. exact do_parse_prefix_same. Qed.
+Print Assumptions C05_do_parse_prefix_same.
